@@ -101,6 +101,7 @@ def handler_rule(prog, rep, funcs, rule="HANDLER-1"):
                    "for foreign objects, and a narrower handler leaves the half applied change in place")
     n = 0
     for f in funcs:
+        order = dict((id(x), i) for i, x in enumerate(ast.walk(f.node)))       # (line numbers coincide where a helper was put in)
         for node in walk_no_nested(f.node):
             if not isinstance(node, ast.Try):
                 continue
@@ -112,7 +113,8 @@ def handler_rule(prog, rep, funcs, rule="HANDLER-1"):
                         for prev in walk_no_nested(f.node):
                             if isinstance(prev, ast.Assign) and isinstance(prev.targets[0], ast.Name) and prev.targets[0].id == st.value.id \
                                     and isinstance(prev.value, ast.Attribute) and unparse(prev.value) == unparse(st.targets[0]) \
-                                    and prev.lineno < node.lineno:
+                                    and (prev.lineno < node.lineno or (prev.lineno == node.lineno and not any(prev is y for y in ast.walk(node))
+                                                                         and order.get(id(prev), 0) < order.get(id(h), 0))):
                                 restores.append(st)
                 if not restores:
                     continue
